@@ -384,7 +384,7 @@ Print Assumptions C16_truncate_go_js_agree_ascii.
 (* ---------------- the JavaScript helper models are soyutils.js, by translation ---------------- *)
 (* tablegen generator 16-soyutils-js reads the escape maps, the matcher classes, the regex of newLineToBr, the
    surrogate bounds, WORD_BREAK and the code of $$truncate / insertWordBreaks out of the TEXT of
-   soyjs/lib/soyutils.js (Generated/Tables.v jsu_*); Proofs/CodecJsTie.v: jst_replace is
+   soyjs/lib/soyutils.js (Generated/Tables.v, names jsu_...); Proofs/CodecJsTie.v: jst_replace is
    str.replace(class, ch => table[ch]) unit by unit, jst_replace_alts is str.replace(/(a|b|c)/g, text). *)
 Theorem C16_js_tie_escape_js_string : forall s, Forall (fun c => c < 65536) s ->
   jst_replace jsu_js_matcher jsu_js_escape_map s = Some (u_escape_js_string s).
